@@ -112,7 +112,10 @@ def build_scheme_class(
             base_columns=base_columns, extra_columns=columns, filtered=datum.filtered
         )
     else:
-        columns = datum.columns
+        # a root definition may filter (and must name existing columns) too
+        columns = combine_columns(
+            base_columns=[], extra_columns=columns, filtered=datum.filtered
+        )
 
     name = "_".join([x.capitalize() for x in re.split(r"[-.]", datum.annotation)])
 
